@@ -5,19 +5,26 @@
      P <euid> <tg|-> <flags> <form> <k> <a1,...,ak>     ai = uid:gid:mode(octal) applied to d_i (d_k = leaf)
         form: d = the directory itself, s = through the symlink L<k>, u = with ../ and ./ detours,
               f = the regular file f inside d_k (the loop must start at d_k)
+     I <ruid> <euid> <suid> <rgid> <egid> <sgid> <tg|-> <flags> <form> <k> <a1,...,ak>
+        the same call made by a forked child that has dropped its supplementary groups and done
+        setresgid/setresuid to exactly that identity (any combination a process can have)
      A <k> <a1,...,ak>                                   path_is_accessible on d_k
      D <hex path>                                        path_dirname
    Answers:
      P <euid> <tg> <flags> <leaf_is_dir> <chain> => P 1 | P 0 <idx> <O|G|W> | P -1 <errno>
         left of "=>" is the oracle's input line: the chain is what lstat() reports for every prefix of the
         canonical path (computed here with realpath, independently of path.c), leaf first, "/" last.
+     I <ruid>:<euid>:<suid>:<rgid>:<egid>:<sgid> <tg> <flags> <leaf_is_dir> <chain> => P ... (as above)
      A <chain> => A 1 | A 0 <idx> | A -1
      D <hex result> | D !                                                                      */
+#define _GNU_SOURCE
 #include "hexio.h"
 #include <errno.h>
 #include <limits.h>
 #include <sys/stat.h>
 #include <sys/types.h>
+#include <sys/wait.h>
+#include <grp.h>
 #include <unistd.h>
 #include "path.h"
 
@@ -85,49 +92,88 @@ static int apply(int k, char *spec) {
     return i == k ? 0 : -1;
 }
 
+/* calls path_is_secure and prints " => P 1 | P 0 <idx> <O|G|W> | P -1 <errno>" */
+static void call_secure(const char *path, const char *leafdir, unsigned flags, unsigned seteuid_to) {
+    char ebuf[1024]; int rc, saved;
+    if (seteuid_to != 0 && seteuid(seteuid_to) < 0) die("seteuid");
+    ebuf[0] = 0;
+    rc = path_is_secure(path, ebuf, sizeof ebuf, (path_security_flag_t) flags);
+    saved = errno;
+    if (seteuid_to != 0 && seteuid(0) < 0) die("seteuid back");
+    if (rc == 1) printf(" => P 1\n");
+    else if (rc < 0) printf(" => P -1 %d\n", saved);
+    else {
+        /* which directory is named (between the last pair of quotes) and which complaint */
+        char *q1 = strchr(ebuf, '"'), *q2 = q1 ? strrchr(ebuf, '"') : NULL; char r = '?'; int idx = -1;
+        if (!strncmp(ebuf, "invalid ownership", 17)) r = 'O';
+        else if (!strncmp(ebuf, "group-writable", 14)) r = 'G';
+        else if (!strncmp(ebuf, "world-writable", 14)) r = 'W';
+        if (q1 && q2 && q2 > q1) {
+            size_t n = (size_t) (q2 - q1 - 1), m = strlen(leafdir);
+            *q2 = 0;
+            /* the named directory must be a prefix of the canonical leaf directory */
+            if (n <= m && !strncmp(q1 + 1, leafdir, n) && (leafdir[n] == '/' || leafdir[n] == 0 || n == 1))
+                idx = depth_of(leafdir) - depth_of(q1 + 1);
+        }
+        printf(" => P 0 %d %c\n", idx, r);
+    }
+}
+
+static void make_path(char *path, size_t len, char form, int k) {
+    char *p; int i;
+    if (form == 's') snprintf(path, len, "%s/L%d", base, k);
+    else if (form == 'u') {
+        p = path + sprintf(path, "%s", base);
+        for (i = 1; i <= k; i++) p += sprintf(p, "/d%d/.././d%d", i, i);
+        strcpy(p, "/.");
+    }
+    else { dirpath(path, k); if (form == 'f') strcat(path, "/f"); }
+}
+
 int main(int argc, char **argv) {
     if (argc < 2 || !realpath(argv[1], base)) { fprintf(stderr, "usage: path_harness <base>\n"); return 2; }
     setup();
     while (fgets(line, sizeof line, stdin)) {
         char *nl = strchr(line, '\n'); if (nl) *nl = 0;
         if (line[0] == 'P') {
-            unsigned euid, flags; char tgs[32], form; int k, i, rc, saved; char spec[4096];
-            char path[PATH_MAX * 2], canon[PATH_MAX], leafdir[PATH_MAX], ebuf[1024], *p;
+            unsigned euid, flags; char tgs[32], form; int k; char spec[4096];
+            char path[PATH_MAX * 2], canon[PATH_MAX], leafdir[PATH_MAX];
             if (sscanf(line, "P %u %31s %u %c %d %4095s", &euid, tgs, &flags, &form, &k, spec) != 6
                     || k < 1 || k > MAXD || apply(k, spec) < 0) { printf("? %s\n", line); continue; }
-            if (form == 's') snprintf(path, sizeof path, "%s/L%d", base, k);
-            else if (form == 'u') {
-                p = path + sprintf(path, "%s", base);
-                for (i = 1; i <= k; i++) p += sprintf(p, "/d%d/.././d%d", i, i);
-                strcpy(p, "/.");
-            }
-            else { dirpath(path, k); if (form == 'f') strcat(path, "/f"); }
+            make_path(path, sizeof path, form, k);
             if (!realpath(path, canon)) die("realpath");
             printf("P %u %s %u ", euid, !strcmp(tgs, "-") ? "4294967295" : tgs, flags);
             print_chain(canon, leafdir, 1);
             if (path_set_trusted_group(!strcmp(tgs, "-") ? NULL : tgs) < 0) { printf(" => P -2\n"); continue; }
-            if (euid != 0 && seteuid(euid) < 0) die("seteuid");
-            ebuf[0] = 0;
-            rc = path_is_secure(path, ebuf, sizeof ebuf, (path_security_flag_t) flags);
-            saved = errno;
-            if (euid != 0 && seteuid(0) < 0) die("seteuid back");
-            if (rc == 1) printf(" => P 1\n");
-            else if (rc < 0) printf(" => P -1 %d\n", saved);
-            else {
-                /* which directory is named (between the last pair of quotes) and which complaint */
-                char *q1 = strchr(ebuf, '"'), *q2 = q1 ? strrchr(ebuf, '"') : NULL; char r = '?'; int idx = -1;
-                if (!strncmp(ebuf, "invalid ownership", 17)) r = 'O';
-                else if (!strncmp(ebuf, "group-writable", 14)) r = 'G';
-                else if (!strncmp(ebuf, "world-writable", 14)) r = 'W';
-                if (q1 && q2 && q2 > q1) {
-                    size_t n = (size_t) (q2 - q1 - 1), m = strlen(leafdir);
-                    *q2 = 0;
-                    /* the named directory must be a prefix of the canonical leaf directory */
-                    if (n <= m && !strncmp(q1 + 1, leafdir, n) && (leafdir[n] == '/' || leafdir[n] == 0 || n == 1))
-                        idx = depth_of(leafdir) - depth_of(q1 + 1);
-                }
-                printf(" => P 0 %d %c\n", idx, r);
+            call_secure(path, leafdir, flags, euid);
+        } else if (line[0] == 'I') {
+            unsigned id[6], flags; char tgs[32], form; int k, st; char spec[4096]; pid_t pid;
+            char path[PATH_MAX * 2], canon[PATH_MAX], leafdir[PATH_MAX];
+            if (sscanf(line, "I %u %u %u %u %u %u %31s %u %c %d %4095s", &id[0], &id[1], &id[2], &id[3], &id[4],
+                       &id[5], tgs, &flags, &form, &k, spec) != 11
+                    || k < 1 || k > MAXD || apply(k, spec) < 0) { printf("? %s\n", line); continue; }
+            make_path(path, sizeof path, form, k);
+            if (!realpath(path, canon)) die("realpath");
+            printf("I %u:%u:%u:%u:%u:%u %s %u ", id[0], id[1], id[2], id[3], id[4], id[5],
+                   !strcmp(tgs, "-") ? "4294967295" : tgs, flags);
+            print_chain(canon, leafdir, 1);
+            if (path_set_trusted_group(!strcmp(tgs, "-") ? NULL : tgs) < 0) { printf(" => P -2\n"); continue; }
+            fflush(stdout);
+            pid = fork();
+            if (pid < 0) die("fork");
+            if (pid == 0) {
+                uid_t r, e, sv; gid_t rg, eg, sg;
+                if (setgroups(0, NULL) < 0) die("setgroups");
+                if (setresgid(id[3], id[4], id[5]) < 0) die("setresgid");
+                if (setresuid(id[0], id[1], id[2]) < 0) die("setresuid");
+                if (getresuid(&r, &e, &sv) < 0 || getresgid(&rg, &eg, &sg) < 0 || r != id[0] || e != id[1]
+                        || sv != id[2] || rg != id[3] || eg != id[4] || sg != id[5]) die("identity");
+                call_secure(path, leafdir, flags, 0);
+                fflush(stdout);
+                _exit(0);
             }
+            if (waitpid(pid, &st, 0) < 0 || !WIFEXITED(st) || WEXITSTATUS(st) != 0) {
+                fprintf(stderr, "child failed on: %s\n", line); return 4; }
         } else if (line[0] == 'A') {
             int k, rc; char spec[4096], path[PATH_MAX], leafdir[PATH_MAX], ebuf[1024];
             if (sscanf(line, "A %d %4095s", &k, spec) != 2 || k < 1 || k > MAXD || apply(k, spec) < 0) {
